@@ -77,6 +77,29 @@ def ite_key_checks(ctx, mc3=True):
         gen_and_replay(ctx, "GenIte", cfg, "itevec", "Ite::new on sampled triples of 3-variable functions, order %s" % o, extra_replay=["--nv", 3], timeout=1500)
 
 
+def bdd_machine(ctx, prop):
+    """BddMachine: node store + persistent apply cache + ite_helper / cond_with_alloc on pointers with complement edges, every history
+    of public calls: results right (C01), store ordered / reduced / canonical (C02), every cache cell holds the value of its key (C16)."""
+    if prop in ("C01", "C02"):
+        model_check(ctx, "MC_BddMachine", "MC_BddMachine_2_all.cfg", "BddMachine: every history of ite / and / or / xor / iff / cond / exists / compose calls on 2 variables, "
+                    "cache-everything table persisting across calls (calls issued while <= 4 nodes, <= 2 cache entries)", workers=6, timeout=900)
+    if prop in ("C16", "C02"):
+        model_check(ctx, "MC_BddMachine", "MC_BddMachine_q_lru1.cfg", "BddMachine: every history of ite / cond / exists calls on 2 variables (order 1,0) with a ONE-cell "
+                    "direct-mapped apply cache (every insertion evicts)", workers=6, timeout=900)
+    if prop == "C01":
+        model_check(ctx, "MC_BddMachine", "MC_BddMachine_nocompl.cfg", "regression: a cache hit on a complemented standard triple returned un-negated gives wrong results",
+                    workers=2, expect_violation=True)
+    if prop == "C16":
+        model_check(ctx, "MC_BddMachine", "MC_BddMachine_nokey.cfg", "regression: a cache that answers from the cell without comparing the key is not transparent",
+                    workers=2, expect_violation=True)
+    if not ctx.quick:
+        for cfg, what in (("2_lru1", "all operations, one-cell cache, order 1,0, until the store is complete (7 nodes)"),
+                          ("2_lru2", "all operations, two-cell cache"),
+                          ("3_lru", "and / xor / cond / exists on 3 variables (order 1,2,0), two-cell cache, calls issued while <= 5 nodes"),
+                          ("3_all", "and / xor / cond / exists on 3 variables (order 2,0,1), cache-everything")):
+            model_check(ctx, "MC_BddMachine", "MC_BddMachine_%s.cfg" % cfg, "BddMachine: " + what, workers=12, timeout=3000, xmx="8g")
+
+
 def C01(ctx):
     ctx.assumptions += [
         "denotational oracle = spec/BoolFn.tla, cross-checked against algebraic laws by TLC (MC_BoolFn)",
@@ -85,6 +108,7 @@ def C01(ctx):
     ]
     model_check(ctx, "MC_BoolFn", "MC_BoolFn.cfg", "vocabulary laws (oracle self-check)", workers=1, timeout=300)
     ite_key_checks(ctx)
+    bdd_machine(ctx, "C01")
     function_level_vectors(ctx, "bddvec")
     if ctx.quick:
         jobs = bdd_jobs(ctx, "c01", 8, 4, 200, 5)
@@ -120,6 +144,7 @@ def C02(ctx):
                 workers=2, expect_violation=True)
     if not ctx.quick:
         model_check(ctx, "RobinHood", "MC_RobinHood_big.cfg", "6 keys, cap 2->16", workers=16, timeout=3000, xmx="8g")
+    bdd_machine(ctx, "C02")
     # spec -> impl: every behaviour of the bounded model replayed into the real table
     gen_and_replay(ctx, "GenTable", "GenTable.cfg" if ctx.quick else "GenTable_big.cfg", "table",
                    "all get_or_insert sequences of the bounded RobinHood model")
@@ -146,6 +171,7 @@ def C16(ctx):
     # check of 3-variable functions is part of C01's quick tier and of this property's thorough tier; here the proof, the 2-variable
     # model checks and the replays of every printed triple)
     ite_key_checks(ctx, mc3=False)
+    bdd_machine(ctx, "C16")
     # proof (TLAPS, any key set, any table sizes, any slot function): a direct-mapped cache with full-key comparison whose growth puts
     # every surviving entry into its own slot (invariant OwnSlot of Lru.tla, model-checked above) answers nothing or the last value stored
     proof_check(ctx, "LruProof", "a direct-mapped cache with full-key comparison is a LossyMap for any keys, sizes and slot function")
